@@ -47,7 +47,7 @@ func slice(v any, start, stop int) any {
 			return []any{}
 		}
 
-		return a[start:stop]
+		return pruneArray(a[start:stop])
 	}
 
 	if s, ok := v.(string); ok {
@@ -158,9 +158,13 @@ func sliceStep(v any, start, stop, step int) any {
 			}
 		}
 
-		r := make([]any, n)
+		r := make([]any, 0, n)
 		for i, j := 0, start; i < n; i, j = i+1, j+step {
-			r[i] = a[j]
+			if a[j] == nil {
+				continue
+			}
+
+			r = append(r, a[j])
 		}
 
 		return r
